@@ -1,5 +1,7 @@
 // Lifecycle harness (C04, C06, C08, C09, C10): a pool of multi::array<T, D, Alloc> objects driven by a history text.
-// One executable per configuration:  -DLIFE_D=<1..4> -DLIFE_T=<0 int | 1 tracked> -DLIFE_POCCA= -DLIFE_POCMA= -DLIFE_POCS=
+// One executable per configuration:  -DLIFE_D=<1..4> -DLIFE_T=<0 int | 1 tracked | 2 tagged: not trivially default
+// constructible, trivially destructible | 3 cell: trivial default constructor, user-provided copy | 4 tracked with a
+// noexcept move assignment> -DLIFE_POCCA= -DLIFE_POCMA= -DLIFE_POCS=
 // -DLIFE_AE= (tracked_alloc traits) or -DLIFE_PMR=1 (std::pmr::polymorphic_allocator over logging resources).
 // After every operation it prints, per live array: extents, elements (moved-from ones flagged with '!'), block identity
 // class (numbered by first appearance), get_allocator() id; and globally: alive elements, outstanding blocks, copies
@@ -10,6 +12,8 @@
 
 #include <algorithm>
 #include <cstdio>
+#include <cstdlib>
+#include <exception>
 #include <initializer_list>
 #include <iostream>
 #include <map>
@@ -48,6 +52,15 @@ constexpr int D = LIFE_D;
 #if LIFE_T == 1
 using T = life::elem;
 constexpr bool tracked = true;
+#elif LIFE_T == 4
+using T = life::elem_nx;
+constexpr bool tracked = true;
+#elif LIFE_T == 2
+using T = life::tagged;
+constexpr bool tracked = false;
+#elif LIFE_T == 3
+using T = life::cell;
+constexpr bool tracked = false;
 #else
 using T = int;
 constexpr bool tracked = false;
@@ -77,7 +90,7 @@ using ConvT = std::conditional_t<tracked, int, short>;   // the "convertible ele
 constexpr int NP = 6;
 
 static int val_of(int x) { return x; }
-static int val_of(life::elem const& x) { return x.v; }
+template<class E> static auto val_of(E const& x) -> decltype(x.v) { return x.v; }
 
 using BExt = std::vector<std::pair<idx_t, idx_t>>;   // per dimension [first, last)
 template<std::size_t... I> static Exts mk_exts_(BExt const& e, std::index_sequence<I...> /*u*/) {
@@ -249,6 +262,7 @@ struct Tok {
 		std::vector<ViewOp> ops;
 		while(k < t.size()) {
 			if(t[k] == "|") { ++k; continue; }
+			if(t[k] == "/") { ++k; break; }   // end of the first of two view programs
 			ViewOp o; o.name = s();
 			if(o.name == "sl") { o.a = i(); o.b = i(); }
 			if(o.name == "ss") { o.a = i(); o.b = i(); o.s = i(); }
@@ -321,6 +335,20 @@ static multi::array<ConvT, D> build_conv(BExt const& e, Tok& tk) {
 	multi::array<ConvT, D> src(mk_exts(e));
 	for(auto& x : src.elements()) { x = static_cast<ConvT>(tk.i()); }
 	return src;
+}
+
+// assignment between rows of two arrays (D >= 2)
+template<int DD, class A> static bool rows_compatible(A& a, A& b, idx_t i, idx_t j) {
+	if constexpr(DD >= 2) { return a[i].extensions() == b[j].extensions(); } else { (void)a; (void)b; (void)i; (void)j; return false; }
+}
+template<int DD, class A> static void row_assign(A& a, A& b, idx_t i, idx_t j, int form) {
+	if constexpr(DD >= 2) {
+		switch(form) {
+			case 0: { auto&& row = a[i]; row = b[j]; break; }   // named row = rvalue row of the same type: operator=(subarray&&) &
+			case 1: a[i] = b[j]; break;                          // row = row, both temporaries
+			default: { auto&& row = a[i]; auto&& src = b[j]; row = std::as_const(src); break; }   // operator=(subarray const&) &
+		}
+	} else { (void)a; (void)b; (void)i; (void)j; (void)form; }
 }
 
 // does the operation need no new storage (the property states: such operations do not allocate)?
@@ -444,6 +472,33 @@ static void run_case(Case& c, long fault) {
 				int r = tk.alive(); auto e = tk.exts(); auto src = build_conv(e, tk);
 				show_allocs = (P.at(r).extensions() == src.extensions());
 				arm(); P.at(r) = src;
+			} else if(op == "vassign") {
+				// assignment through views of two different arrays: no storage is needed, elements are copy assigned
+				int form = ai(); int r = tk.alive(); int s = tk.alive();
+				if(r == s) { throw skip_op{}; }
+				auto opsR = tk.viewops(); auto opsS = tk.viewops();
+				View d = view_of(P.at(r), opsR);
+				View q = view_of(P.at(s), opsS);
+				if(!(d.extensions() == q.extensions())) { throw skip_op{}; }
+				show_allocs = true;
+				arm();
+				switch(form) {
+					case 0: d = std::as_const(q); break;             // named = lvalue view: operator=(subarray const&) &
+					case 1: d = std::move(q); break;                 // named = rvalue view of the same type: operator=(subarray&&) &
+					case 2: std::move(d) = std::as_const(q); break;  // a temporary on the left
+					default: d.elements() = q.elements(); break;     // elements() = elements()
+				}
+			} else if(op == "vassign_row") {
+				int form = ai(); int r = tk.alive(); idx_t i = tk.i(); int s = tk.alive(); idx_t j = tk.i();
+				if(D < 2 || r == s) { throw skip_op{}; }
+				Arr& a = P.at(r); Arr& b = P.at(s);
+				if(a.num_elements() == 0 || b.num_elements() == 0) { throw skip_op{}; }
+				if(!(a.extension().first() <= i && i < a.extension().last())) { throw skip_op{}; }
+				if(!(b.extension().first() <= j && j < b.extension().last())) { throw skip_op{}; }
+				if(!rows_compatible<D>(a, b, i, j)) { throw skip_op{}; }
+				show_allocs = true;
+				arm();
+				row_assign<D>(a, b, i, j, form);
 			} else if(op == "swap") {
 				int r = tk.alive(); int s = tk.alive();
 				// the standard's container rule: swapping with non-propagating allocators needs equal allocators
@@ -551,6 +606,12 @@ static void run_case(Case& c, long fault) {
 
 int main() {
 	std::ios::sync_with_stdio(false);
+	// an exception that escapes a noexcept function of the library ends here: it did not reach the caller
+	std::set_terminate([] {
+		std::cout.flush();
+		std::fputs("terminate called: an exception thrown inside the library did not reach the caller (std::terminate)\n", stderr);
+		std::abort();
+	});
 	std::string line;
 	Case* cur = nullptr;
 	long fault = 0;
